@@ -87,8 +87,9 @@ def wrap(obj: tp.Callable[P, R]) -> tp.Callable[..., R]:
         return obj
 
     @functools.wraps(obj)  # type: ignore[arg-type]
-    def binding_wrapper(*args: tp.Any, __binding=binding, **kwargs: tp.Any) -> R:
-        bargs, bkwargs = __binding(args, kwargs)
+    def binding_wrapper(*args: tp.Any, **kwargs: tp.Any) -> R:
+        # Every keyword belongs to `obj`: the wrapper owns no parameter of its own.
+        bargs, bkwargs = binding(args, kwargs)
         return obj(*bargs, **bkwargs)
 
     return binding_wrapper
@@ -104,7 +105,7 @@ class BoundRoutine(tp.Generic[P, R]):
     binding: AbstractBinding[P]
     """The parameter->type binding."""
 
-    def __call__(self, *args: tp.Any, **kwargs: tp.Any) -> R:
+    def __call__(self, /, *args: tp.Any, **kwargs: tp.Any) -> R:
         """Binding an input to the parameters of `call`,
 
         then call the callable and return the result."""
